@@ -85,7 +85,13 @@ def run(ctx):
                 ctx.sample({"program": prog})
         # recursive formats (LazyBound): the path names every level the failure lies below, however deep
         from .. import universes as U
-        for prog, kw, vals in U.recursive_programs():
+        point = A.Renamed("point", A.Struct(A.Renamed("x", A.Alias("Byte")), A.Renamed("y", A.Alias("Int16ub")), A.Renamed("v", A.VarInt)))
+        relabelled = [(A.Struct(A.Renamed("origin", point), A.Renamed("t", A.Alias("Byte"))), {}, [{"origin": {"x": 1, "y": 2, "v": 300}, "t": 3}]),
+                      (A.Struct(A.Renamed("a", A.Renamed("b", A.Renamed("c", A.Alias("Int16ub")))), A.Renamed("p", A.Prefixed(A.Alias("Byte"), A.Renamed("q", point)))), {},
+                       [{"a": 5, "p": {"x": 1, "y": 2, "v": 3}}]),
+                      (A.Array(2, A.Renamed("e", point)), {}, [[{"x": 1, "y": 2, "v": 3}, {"x": 4, "y": 5, "v": 6}]])]
+        # (a definition that carries its own name, embedded under another name: both names are steps of the path)
+        for prog, kw, vals in relabelled + U.recursive_programs():
             con = campaign.realizable(prog)
             if con is None:
                 continue
@@ -115,6 +121,7 @@ def run(ctx):
             for v in vals:
                 for bad in itertools.islice(spoil(v, 0), 40):
                     camp.build(prog, con, bad, b"", kw, tag="unbuildable-deep")
+            camp.sizeof(prog, con, kw)
             camp.sh.maybe_flush()
         vs = camp.validate()
         campaign.judge(ctx, camp, vs, conformance=None, clauses=("C18.trunc",))
